@@ -9,9 +9,13 @@ type counters struct {
 
 func newCounters() counters { return counters{c: map[string]int{}} }
 
-func (k *counters) count(name string)        { k.c[name]++ }
-func (k *counters) add(name string, n int)   { k.c[name] += n }
-func (k *counters) sample(s string)          { if len(k.samples) < 4 { k.samples = append(k.samples, s) } }
+func (k *counters) count(name string)      { k.c[name]++ }
+func (k *counters) add(name string, n int) { k.c[name] += n }
+func (k *counters) sample(s string) {
+	if len(k.samples) < 4 {
+		k.samples = append(k.samples, s)
+	}
+}
 func (k *counters) Counters() map[string]int { return k.c }
 func (k *counters) Samples() []string        { return k.samples }
 
